@@ -19,3 +19,18 @@ def register(check, TIERB_NOTE):
           "Helpers are regenerated from YANG by the working tree's generator at check time.",
           "DESIGN.md §5 (Tier B, C34)", TIERB_NOTE,
           "deterministic simulation: seeded operation histories vs executable reference model, rejected-operation injection, ddmin-minimised replay")
+    check("C12", "exploration",
+          "Seeded search over DeleteNode histories on seeded trees of four generated schemas (compressed, uncompressed, wrapper-union, the repository's "
+          "integration schema): after every call the leaf set computed by the harness's own walker must equal 'previous set minus everything at or below p' "
+          "(through every addressable path of a field, shadow paths with and without PreferShadowPath), GetNode must find nothing there, emptied containers "
+          "and list entries on the way must be gone, and a repeated delete must change nothing. Failing deletes are injected (garbage, keyless-list paths) "
+          "and must still keep every leaf outside p. Histories matter: the finding fixed in /repo needed delete(key leaf) followed by delete(entry).",
+          "DESIGN.md §5 (Tier B, C12)", TIERB_NOTE,
+          "deterministic simulation: seeded operation histories vs path->value reference model, failing-operation injection, ddmin-minimised replay")
+    check("C10", "exploration",
+          "Seeded search over SetNode(InitMissingElements) histories: targets drawn by random descent of the schema through every list key type (existing and "
+          "new entries), payloads built by the harness's own TypedValue / RFC 7951 encoders from type-correct generated values; after each successful set the "
+          "walker's leaf set may differ from the previous one only in the target leaf and the key leaves of entries created on the way, and GetNode must return "
+          "exactly one node holding the value in the leaf's Go type. Ill-typed payloads, unknown paths and missing keys are injected as failing operations.",
+          "DESIGN.md §5 (Tier B, C10)", TIERB_NOTE,
+          "deterministic simulation: seeded operation histories vs path->value reference model, failing-operation injection, ddmin-minimised replay")
